@@ -116,7 +116,8 @@ impl Search {
         }
     }
     pub fn finding(&mut self, signature: &str, what: &str, input: &str) {
-        if self.findings.iter().any(|f| f.0 == signature) {
+        // (VERIF_ALL: list every failing case, for triage)
+        if self.findings.iter().any(|f| f.0 == signature) && std::env::var("VERIF_ALL").is_err() {
             return;
         }
         self.findings.push((signature.to_string(), what.to_string(), input.to_string()));
